@@ -10,7 +10,10 @@ unlinked (with the same cancel-CAS-outside-the-lock window as the timed receive,
 `wakes f => n:0` / `dropfut f => ok` (not woken) on a future that was polled and is still pending
 says: no wake-up was delivered since that poll — the model then requires the future to be *disabled*
 (no possible step), which is the property; a pending, enabled, unwoken future is a lost wakeup
-(F2, F14 in the code as it stands).
+(F2, F14 in the code as it stands).  Two refinements keep this from being stricter than the code's
+wake-ONE protocol (`noWakeOk`): the one wake-up per freed slot / new item may sit with another
+registered future of the same direction (`wakeHeld`), and nothing is demanded while an operation of
+another thread is still in flight (`busy`; the notification is the last step of a send / receive).
 The wrapper state keeps the futures next to the channel state `St`; ordinary operations are delegated
 to `Fv.Chan.micro` untouched.
 -/
@@ -35,6 +38,8 @@ structure FutE where
 structure StF where
   s : St
   futs : List FutE := []
+  /-- ordinary (non-future) operations of other threads that have started and not yet returned -/
+  busy : Nat := 0
   deriving DecidableEq, Repr, Inhabited
 
 inductive PF where
@@ -87,6 +92,39 @@ def stuckFut (fl : Flavour) (cfg : Cfg) (s : St) (e : FutE) : Bool :=
   -- judged with the exact window: "enabled" is the property's notion, not the stale one of F14
   e.p.out?.isNone && (micro fl { cfg with hot := false } s e.p).isEmpty
 
+def FutE.isSend (e : FutE) : Bool :=
+  match e.op with
+  | .snd _ _ _ => true
+  | _ => false
+
+/-- Wake-one: the other live futures of the same direction that were polled (their waker is registered),
+are unresolved and could move now — a wake-up that was issued for a freed slot / a new item may be
+sitting with one of them (woken, not polled again yet). -/
+def wakeHolders (fl : Flavour) (cfg : Cfg) (x : StF) (e : FutE) : Nat :=
+  (x.futs.filter fun e' =>
+    e'.id != e.id && !e'.done && e'.polled && (e'.isSend == e.isSend) && !stuckFut fl cfg x.s e').length
+
+/-- Every unit this future could take (free slots for a send, buffered items for a receive) may have
+had its one wake-up delivered to another registered future of the same direction: the channels wake
+ONE waiter per freed slot / per item (mpmc `try_recv_core` / `try_send_core` signal the first WAITING
+record, the chains pop one waiter), and a registered mpmc send future that is polled again without
+having been signalled stays Pending without looking at the queue (mpmc_v2/async_impl.rs:69-101).
+Only the buffered families can have several live futures of one direction. -/
+def wakeHeld (fl : Flavour) (cfg : Cfg) (x : StF) (e : FutE) : Bool :=
+  decide (wakeHolders fl cfg x e > 0) &&
+    (match fl.fam with
+     | .sb | .mb | .mu | .pb | .pu =>
+       decide ((if e.isSend then (match room fl x.s with | some r => r | none => wakeHolders fl cfg x e + 1)
+                else x.s.buf.length) ≤ wakeHolders fl cfg x e)
+     | _ => false)
+
+/-- "No wake-up since the last poll" (`wakes f => n:0`, `dropfut f => ok`) is admissible for a future that
+is not owed one: resolved, never polled, disabled; or whose wake-up may sit with another registered
+future (`wakeHeld`); or while an operation of another thread is still in flight (the notification is
+the last thing a send / receive does: the item is visible before the waiter is woken). -/
+def noWakeOk (fl : Flavour) (cfg : Cfg) (x : StF) (e : FutE) : Bool :=
+  !cfg.wakeRule || e.done || !e.polled || stuckFut fl cfg x.s e || wakeHeld fl cfg x e || decide (x.busy > 0)
+
 /-- what dropping a future does to the channel state: its in-hand values are dropped with it; a parked
 rendezvous sender record is unlinked (its item dropped), a receiver record is unlinked -/
 def dropFutState (s : St) (e : FutE) (t : Nat) : St :=
@@ -108,7 +146,7 @@ def futTid (f : Nat) : Nat := 1000 + f
 
 def microF (fl : Flavour) (cfg : Cfg) (x : StF) : PLF → List (StF × PF)
   | (.base op, .start t) =>
-    if busyRefusal fl x op then [(x, .fin { tag := .busy })]
+    if busyRefusal fl x op then [({ x with busy := x.busy + 1 }, .fin { tag := .busy })]
     else
       -- harness: a form the handle type does not have falls through to the consuming forms, which are
       -- refused while a future borrows the handle
@@ -118,9 +156,9 @@ def microF (fl : Flavour) (cfg : Cfg) (x : StF) : PLF → List (StF × PF)
       (micro fl cfg x.s (.fresh t op)).map (fun r =>
         match r.2 with
         | .fin o =>
-          if o.tag == .unsupported && viaCall && (op.handle?.map (busyH x)).getD false then (x, PF.fin { tag := .busy })
-          else ({ x with s := r.1 }, .base r.2)
-        | _ => ({ x with s := r.1 }, .base r.2))
+          if o.tag == .unsupported && viaCall && (op.handle?.map (busyH x)).getD false then ({ x with busy := x.busy + 1 }, PF.fin { tag := .busy })
+          else ({ x with s := r.1, busy := x.busy + 1 }, .base r.2)
+        | _ => ({ x with s := r.1, busy := x.busy + 1 }, .base r.2))
   | (.base _, .base p) => (micro fl cfg x.s p).map (fun r => ({ x with s := r.1 }, .base r.2))
   | (.fut f inner, .start _) =>
     if (findF x.futs f).isSome then [(x, .fin { tag := .nameExists })]
@@ -144,16 +182,19 @@ def microF (fl : Flavour) (cfg : Cfg) (x : StF) : PLF → List (StF × PF)
       match e.p.out? with
       | some o => [({ x with futs := setF x.futs f (fun e => { e with done := true }) }, .fin (observe e.op o))]
       | none =>
-        let steps := (micro fl cfg x.s e.p).map (fun r => ({ s := r.1, futs := setF x.futs f (fun e => { e with p := r.2 }) }, PF.polling t f))
+        let steps := (micro fl cfg x.s e.p).map (fun r => ({ x with s := r.1, futs := setF x.futs f (fun e => { e with p := r.2 }) }, PF.polling t f))
         if steps.isEmpty then [({ x with futs := setF x.futs f (fun e => { e with polled := true }) }, .fin { tag := .pending })]
-        else steps
+        else
+          -- a registered future polled again (spuriously): it may stay Pending although it could move if the
+          -- wake-ups for everything it could take may sit with other registered futures (wake-one)
+          steps ++ (if e.polled && wakeHeld fl cfg x e then [(x, .fin { tag := .pending })] else [])
   | (.wakes f, .start _) =>
     match findF x.futs f with
     | none => [(x, .fin { tag := .noFut })]
     | some e =>
       -- `val = .b false`: "no wake since the last poll" — admissible only for a future that is not owed one
       [(x, .fin { tag := .ok })] ++
-        (if !cfg.wakeRule || e.done || !e.polled || stuckFut fl cfg x.s e then [(x, .fin { tag := .ok, val := .b false })] else [])
+        (if noWakeOk fl cfg x e then [(x, .fin { tag := .ok, val := .b false })] else [])
   | (.dropfut f, .start t) =>
     match findF x.futs f with
     | none => [(x, .fin { tag := .noFut })]
@@ -165,19 +206,19 @@ def microF (fl : Flavour) (cfg : Cfg) (x : StF) : PLF → List (StF × PF)
         | .rvRecv u =>
           -- cancel CAS first (outside the lock), unlink in a second step (F1 window)
           if (x.s.rdone.any (fun y => y.1 == u)) || x.s.rdisc.contains u then
-            [({ s := dropFutState x.s e t, futs := x.futs.filter (fun e => e.id != f) }, .fin { tag := .ok })]
+            [({ x with s := dropFutState x.s e t, futs := x.futs.filter (fun e => e.id != f) }, .fin { tag := .ok })]
           else [({ x with s := { x.s with rcanc := x.s.rcanc ++ [u] } }, .dropping t f)]
         | _ =>
-          let x' : StF := { s := dropFutState x.s e t, futs := x.futs.filter (fun e => e.id != f) }
+          let x' : StF := { x with s := dropFutState x.s e t, futs := x.futs.filter (fun e => e.id != f) }
           [(x', .fin { tag := .ok })] ++
-            (if !cfg.wakeRule || !e.polled || stuckFut fl cfg x.s e then [(x', .fin { tag := .ok, val := .b false })] else [])
+            (if noWakeOk fl cfg x e then [(x', .fin { tag := .ok, val := .b false })] else [])
   | (.dropfut _, .dropping t f) =>
     match findF x.futs f with
     | none => []
     | some e =>
-      let x' : StF := { s := dropFutState x.s e t, futs := x.futs.filter (fun e => e.id != f) }
+      let x' : StF := { x with s := dropFutState x.s e t, futs := x.futs.filter (fun e => e.id != f) }
       [(x', .fin { tag := .ok })] ++
-        (if !cfg.wakeRule || !e.polled || stuckFut fl cfg x.s e then [(x', .fin { tag := .ok, val := .b false })] else [])
+        (if noWakeOk fl cfg x e then [(x', .fin { tag := .ok, val := .b false })] else [])
   | _ => []
 
 def finF : PLF → Option Res
@@ -196,7 +237,7 @@ def semF (fl : Flavour) (cfg : Cfg) : LinCore.Sem StF OpF Res PLF KeyF where
     | .base op => normRes fl op r
     | _ => r)
   retire x p := match p.1 with
-    | .base op => { x with s := retire fl cfg x.s op }
+    | .base op => { x with s := retire fl cfg x.s op, busy := x.busy - 1 }
     | _ => x
   key x pend := (x.s.core, x.futs, pend)
 
